@@ -163,6 +163,17 @@ CHECKS = {
               "source with a different error state (zombie/denied/gone) are not compared. The 'first read' moment is observed on psutil's per-object cache."),
         design="DESIGN.md section 3 C16",
     ),
+    "C18": dict(
+        level="exploration",
+        technique="property-based testing (Hypothesis): generated setter sequences applied to a live sacrificial child with a differential oracle against independent kernel reads, plus a simulated tier logging what reaches the extension",
+        text=("Generated sequences of nice / ionice / cpu_affinity / rlimit requests (full valid grids and the invalid values around them) are applied through psutil to a real child; before "
+              "and after every request the kernel is read through os.getpriority, a raw ioprio_get syscall, os.sched_getaffinity and resource.prlimit for the child, a bystander and the "
+              "harness: get == kernel, successful set == exactly the request, invalid requests raise ValueError and change nothing, nobody else changes, cpu_affinity([]) yields the "
+              "all-ones mask. A simulated tier repeats the requests over 7 Cpus_allowed_list shapes with a cpuset model. Search, not proof."),
+        note=("Trusted: the os/resource/ctypes read paths, vlib/simk.py. Runs as root in the sandbox; limits that would kill the child are offset to large values; a child that dies makes the case inconclusive; "
+              "mixed existing/non-existing CPU lists are accepted either way."),
+        design="DESIGN.md section 3 C18",
+    ),
     "C19": dict(
         level="exploration",
         technique="property-based testing (Hypothesis): generated /sys and /proc hardware trees -> statement arithmetic on the model tree",
